@@ -179,27 +179,37 @@ class HardwareSetup:
         for dac, dac_windows in affected_dacs.items():
             dac.register_measurement_windows(name, dac_windows)
 
+        if name in self._registered_programs:
+            # the previous registration of this name may have used devices the new program does not use
+            previous = self._registered_programs[name]
+            self._remove_from_devices(name,
+                                      previous.awgs_to_upload_to - handled_awgs,
+                                      previous.dacs_to_arm - set(affected_dacs.keys()))
+
         self._registered_programs[name] = RegisteredProgram(program=program,
                                                             measurement_windows=measurement_windows,
                                                             run_callback=run_callback,
                                                             awgs_to_upload_to=handled_awgs,
                                                             dacs_to_arm=set(affected_dacs.keys()))
 
+    def _remove_from_devices(self, name: str, awgs: Iterable[AWG], dacs: Iterable[DAC]) -> None:
+        for awg in awgs:
+            try:
+                awg.arm(None)
+                awg.remove(name)
+            except RuntimeError:
+                warnings.warn("Could not remove Program({}) from AWG({})".format(name, awg.identifier))
+
+        for dac in dacs:
+            try:
+                dac.delete_program(name)
+            except RuntimeError:
+                warnings.warn("Could not remove Program({}) from DAC({})".format(name, dac))
+
     def remove_program(self, name: str):
         if name in self._registered_programs:
             program_info = self._registered_programs.pop(name)
-            for awg in program_info.awgs_to_upload_to:
-                try:
-                    awg.arm(None)
-                    awg.remove(name)
-                except RuntimeError:
-                    warnings.warn("Could not remove Program({}) from AWG({})".format(name, awg.identifier))
-
-            for dac in program_info.dacs_to_arm:
-                try:
-                    dac.delete_program(name)
-                except RuntimeError:
-                    warnings.warn("Could not remove Program({}) from DAC({})".format(name, dac))
+            self._remove_from_devices(name, program_info.awgs_to_upload_to, program_info.dacs_to_arm)
 
     def clear_programs(self) -> None:
         """Clears all programs from all known AWG and DAC devices.
